@@ -914,6 +914,11 @@ class Connection (EventMixin):
 
     offset = 0
     while buf_len - offset >= 8: # 8 bytes is minimum OF message size
+      if self.disconnected:
+        # A handler (or a failed send) dropped the connection: don't
+        # dispatch anything else on it
+        return False # Throw connection away
+
       # We pull the first four bytes of the OpenFlow header off by hand
       # to find the version/length/type so that we can correctly call
       # libopenflow to unpack it.
